@@ -14,6 +14,8 @@ import (
 	"fmt"
 	"math/big"
 	"os"
+	"os/exec"
+	"path/filepath"
 	"runtime"
 	"sort"
 	"strings"
@@ -1629,6 +1631,59 @@ func runGen(g genSpec, kind string) {
 	checkScan(sc, false, false)
 }
 
+// ---------------------------------------------------------------- the production configuration (Round 3)
+// bin/check builds this command with -tags verif; library code compiled only WITHOUT that tag is not in such a
+// binary.  The tagged binary therefore builds the command again with no tag (what users of the library compile; same
+// module graph: GOFLAGS is inherited) and runs the same generators and monitors in it at the driver's tier; the
+// child's violations are merged under their keys, the replay says which build showed them.
+func runProdChild(extra ...string) {
+	if !builtWithVerifTag {
+		return
+	}
+	dir, _ := os.Getwd()
+	if exe, err := os.Executable(); err == nil {
+		if d := filepath.Dir(filepath.Dir(exe)); fileExists(filepath.Join(d, "go.mod")) {
+			dir = d
+		}
+	}
+	bin := filepath.Join(dir, "bin", "c10_prod")
+	build := exec.Command("go", "build", "-o", bin, "./cmd/c10")
+	build.Dir = dir
+	if out, err := build.CombinedOutput(); err != nil {
+		if len(out) > 1500 {
+			out = out[:1500]
+		}
+		rep.Extra["production_build"] = "go build (no tags) of cmd/c10 failed: " + err.Error() + ": " + string(out)
+		fmt.Fprintln(os.Stderr, "c10: production build failed:", err)
+		return
+	}
+	out := filepath.Join(cfg.Out, "prod")
+	cmd := exec.Command(bin, append([]string{"-seed", fmt.Sprint(cfg.Seed), "-tier", cfg.Tier, "-out", out}, extra...)...)
+	cmd.Dir = dir
+	cmd.Stderr = os.Stderr
+	if err := cmd.Run(); err != nil {
+		rep.Extra["production_build"] = "run failed: " + err.Error()
+	}
+	raw, err := os.ReadFile(filepath.Join(out, "report.json"))
+	os.RemoveAll(out)
+	var pr vh.Report
+	if err != nil || json.Unmarshal(raw, &pr) != nil {
+		return
+	}
+	rep.Extra["production_build"] = fmt.Sprintf("cmd/c10 rebuilt without any build tag and run as a child: %d executions, %d violations", pr.Evaluations, len(pr.Violations))
+	rep.Histogram["production-build executions"] = pr.Evaluations
+	for _, v := range pr.Violations {
+		r, _ := v.Replay.(map[string]interface{})
+		if r == nil {
+			r = map[string]interface{}{"input": v.Replay}
+		}
+		r["build"] = "production configuration (go build without -tags verif); the tagged build may not show it"
+		rep.Violate(v.Key, v.What, r)
+	}
+}
+
+func fileExists(p string) bool { _, err := os.Stat(p); return err == nil }
+
 // ---------------------------------------------------------------- replay
 func runReplay(path string) {
 	raw, err := os.ReadFile(path)
@@ -1681,6 +1736,7 @@ func main() {
 	cases = vh.NewCases(cfg, "Run.Run_C10", 150)
 	if cfg.Replay != "" {
 		runReplay(cfg.Replay)
+		runProdChild("-replay", cfg.Replay)
 		vh.Must(rep.Write(cfg))
 		fmt.Printf("c10 replay: %d monitor violations\n", len(rep.Violations))
 		return
@@ -1960,6 +2016,7 @@ func main() {
 		}
 	}
 
+	runProdChild()
 	rep.Cases = cases.Len()
 	rep.Extra["duplicate_cases_dropped"] = cases.Dups
 	rep.Extra["generator_statistics"] = stats
